@@ -1,3 +1,215 @@
 import B6.Driver.Common
-/-! Driver for C15 — stub (the check for this property is not built yet). -/
-def main : IO Unit := B6.Driver.run { σ := Unit, init := (), step := fun s _ _ => (s, .bad) }
+import B6.Driver.SkelIO
+import B6.Model.RefIndex
+import B6.Spec.Referrers
+/-!
+Driver for C15 — reference queries.
+
+Three object families share one case (each op names its object by prefix):
+
+`idx.*`  a bare `ingest.FeatureReferencesByID`
+  `idx.new`                     answer: dump of the index (`[]`)
+  `idx.add <feature>`           answer: dump        (feature = `w10=p1,p2`, `r5=`, …)
+  `idx.rm <feature>`            answer: dump | `panic`
+  `idx.find <id> [type…]`       answer: sorted source IDs, one per returned reference | `crash` | `hang`
+  dump = `[p1:w10@0,w11@2 w10:a20 r9:]` (targets sorted; entries in slice order; `@n` = indexed entry)
+`mw.*`   an `ingest.BasicMutableWorld`
+  `mw.new` → `ok`;  `mw.add <feature>` → `ok` | `err` | `skipped`
+  `mw.find|rels|cols|areas <id> [type…]` → sorted IDs | `crash` | `hang` | `skipped`
+`ow.*`   an `ingest.MutableOverlayWorld` over a basic world
+  `ow.base [<feature>…]` → the features of the built base world (the driver resynchronises on it)
+  `ow.add <feature>` → `ok`|`err`|`skipped`; `ow.tag <id>` → `ok`|`err`|`skipped`; `ow.snap` → `ok`
+  `ow.find|rels|cols|areas <id> [type…]`
+
+The property predicate: every query answer = the referrers of the ID in the CURRENT feature set
+(`B6.Spec.Referrers.referrers`, restricted to the requested types), each once; no crash, no hang.
+Whether `AddFeature` accepts a feature (validation) is taken from the implementation (C13/C37).
+-/
+open B6.Driver B6.Driver.SkelIO B6.Model.RefIndex
+namespace B6.Driver.C15
+abbrev Id := B6.Model.RefIndex.Id
+
+def parseFeature (s : String) : Option Feature :=
+  match s.splitOn "=" with
+  | [a, b] => do
+    let id ← parseId a
+    let refs ← parseIdsComma b
+    some ⟨id, refs⟩
+  | _ => none
+
+def renderFeature (f : Feature) : String := renderId f.id ++ "=" ++ ",".intercalate (f.refs.map renderId)
+
+def renderRef (r : Ref) : String :=
+  match r.pos with
+  | some n => renderId r.src ++ "@" ++ toString n
+  | none => renderId r.src
+
+def renderIndex (ix : Index) : String :=
+  let sorted := sortBy (fun (a b : Id × List Ref) => idLt a.1 b.1) ix
+  renderList (sorted.map fun (t, rs) => renderId t ++ ":" ++ ",".intercalate (rs.map renderRef))
+
+def parseRef (s : String) : Option Ref :=
+  match s.splitOn "@" with
+  | [a] => do let id ← parseId a; some ⟨id, none⟩
+  | [a, n] => do let id ← parseId a; let k ← parseNat? n; some ⟨id, some k⟩
+  | _ => none
+
+def parseIndex (s : String) : Option Index := do
+  let ws ← parseBracket s
+  ws.mapM fun w => match w.splitOn ":" with
+    | [t, es] => do
+      let t ← parseId t
+      let rs ← (splitComma es).mapM parseRef
+      some (t, rs)
+    | _ => none
+
+def renderOptIds : Option (List Id) → String
+  | some xs => renderIds (sortIds xs)
+  | none => "hang"
+
+structure St where
+  ix : Index := []
+  /-- the feature set of the bare index while the history is disciplined (add fresh / remove present) -/
+  disc : Option (List Feature) := some []
+  mw : World := World.empty
+  mwPoisoned : Bool := false
+  ow : Overlay := ⟨[], [], []⟩
+  owPoisoned : Bool := false
+
+/-- spec answer: referrers in `fs`, restricted to existing features of the requested types -/
+def specAnswer (fs : List Feature) (id : Id) (typed : List Nat) : Option (List Id) :=
+  match B6.Spec.Referrers.referrers fs id with
+  | some rs => some (sortIds ((rs.filter (hasFeature fs)).filter (typeOk typed)))
+  | none => none
+
+def judge (impl : String) (model : Option (List Id)) (spec : Option (List Id)) : Verdict :=
+  match spec with
+  | none => .bad
+  | some s =>
+    if impl == renderIds s then (if impl == renderOptIds model then .ok else .diff (renderOptIds model))
+    else .propfail ("referrers expected=" ++ (renderIds s).replace " " ",")
+
+/-- inverse-relation check of a dumped index against a feature set -/
+def indexIsInverse (ix : Index) (fs : List Feature) : Bool :=
+  let targets := (ix.map (·.1)) ++ fs.flatMap (·.refs)
+  targets.all fun t =>
+    let have_ := sortIds (dedup ((entries ix t).map (·.src)))
+    let want := sortIds (dedup ((fs.filter fun f => f.refs.contains t).map (·.id)))
+    have_ == want && ((entries ix t).map (·.src)).length == have_.length
+
+def queryTypes (kind : String) (extra : List String) : Option (List Nat) :=
+  if kind == "find" then parseTypes extra
+  else if extra != [] then none
+  else if kind == "rels" then some [3] else if kind == "cols" then some [5] else if kind == "areas" then some [2]
+  else none
+
+def step (st : St) (op impl : String) : St × Verdict :=
+  match words op with
+  | ["idx.new"] => ({ st with ix := [], disc := some [] }, if impl == "[]" then .ok else .diff "[]")
+  | ["idx.add", fs] =>
+    match parseFeature fs with
+    | none => (st, .bad)
+    | some f =>
+      let ix' := addFeature st.ix f
+      let disc' := match st.disc with
+        | some S => if hasFeature S f.id then none else some (S ++ [f])
+        | none => none
+      let m := renderIndex ix'
+      let resync := match parseIndex impl with | some i => i | none => ix'
+      let v : Verdict :=
+        match parseIndex impl, disc' with
+        | some i, some S => if !indexIsInverse i S then .propfail "index-not-inverse" else if impl == m then .ok else .diff m
+        | _, _ => if impl == m then .ok else .diff m
+      ({ st with ix := resync, disc := disc' }, v)
+  | ["idx.rm", fs] =>
+    match parseFeature fs with
+    | none => (st, .bad)
+    | some f =>
+      let r := removeFeature st.ix f
+      let disc' := match st.disc with
+        | some S => if S.contains f then some (S.filter (· != f)) else none
+        | none => none
+      let m := match r with | some ix' => renderIndex ix' | none => "panic"
+      let resync := match parseIndex impl with | some i => i | none => (r.getD st.ix)
+      let v : Verdict :=
+        match parseIndex impl, disc' with
+        | some i, some S => if !indexIsInverse i S then .propfail "index-not-inverse" else if impl == m then .ok else .diff m
+        | none, some _ => .propfail "remove-failed"
+        | _, none => if impl == m then .ok else .diff m
+      ({ st with ix := resync, disc := disc' }, v)
+  | "idx.find" :: ids :: extra =>
+    match parseId ids, parseTypes extra with
+    | some id, some typed =>
+      let m := findReferences st.ix id typed
+      match st.disc with
+      | some S =>
+        -- predicate: as a set, the referrers in the current feature set; and terminated
+        match parseIds impl, specAnswer S id typed with
+        | some xs, some s =>
+          if sortIds (dedup xs) == s then (st, if impl == renderOptIds m then .ok else .diff (renderOptIds m))
+          else (st, .propfail ("referrers expected=" ++ (renderIds s).replace " " ","))
+        | none, some _ => (st, .propfail "no-answer")
+        | _, none => (st, .bad)
+      | none =>
+        if impl == "crash" || impl == "hang" then (st, .propfail "no-answer")
+        else (st, if impl == renderOptIds m then .ok else .diff (renderOptIds m))
+    | _, _ => (st, .bad)
+  | ["mw.new"] => ({ st with mw := World.empty, mwPoisoned := false }, if impl == "ok" then .ok else .diff "ok")
+  | ["mw.add", fs] =>
+    match parseFeature fs with
+    | none => (st, .bad)
+    | some f =>
+      if st.mwPoisoned then (st, if impl == "skipped" then .ok else .diff "skipped")
+      else if impl == "ok" then
+        match st.mw.add f with
+        | some w' => ({ st with mw := w' }, .ok)
+        | none => (st, .diff "panic")
+      else if impl == "err" then ({ st with mwPoisoned := true }, .ok)
+      else (st, .propfail "no-answer")
+  | ["ow.base", _] | "ow.base" :: _ =>
+    match (do let ws ← parseBracket impl; ws.mapM parseFeature) with
+    | some fs => ({ st with ow := ⟨fs, [], []⟩, owPoisoned := false }, .ok)
+    | none => (st, .bad)
+  | ["ow.add", fs] =>
+    match parseFeature fs with
+    | none => (st, .bad)
+    | some f =>
+      if st.owPoisoned then (st, if impl == "skipped" then .ok else .diff "skipped")
+      else if impl == "ok" then
+        match st.ow.add f with
+        | some o' => ({ st with ow := o' }, .ok)
+        | none => (st, .diff "panic")
+      else if impl == "err" then ({ st with owPoisoned := true }, .ok)
+      else (st, .propfail "no-answer")
+  | ["ow.tag", ids] =>
+    match parseId ids with
+    | none => (st, .bad)
+    | some id =>
+      if st.owPoisoned then (st, if impl == "skipped" then .ok else .diff "skipped")
+      else if impl == "ok" then ({ st with ow := st.ow.copyUp id }, if st.ow.has id then .ok else .diff "err")
+      else if impl == "err" then (st, if st.ow.has id then .diff "ok" else .ok)
+      else (st, .propfail "no-answer")
+  | ["ow.snap"] =>
+    if st.owPoisoned then (st, if impl == "skipped" then .ok else .diff "skipped")
+    else ({ st with ow := st.ow.snapshot }, if impl == "ok" then .ok else .diff "ok")
+  | q :: ids :: extra =>
+    let (world, kind) := match q.splitOn "." with
+      | [a, b] => (a, b)
+      | _ => ("", "")
+    match parseId ids, queryTypes kind extra with
+    | some id, some typed =>
+      if world == "mw" then
+        if st.mwPoisoned then (st, if impl == "skipped" then .ok else .diff "skipped")
+        else (st, judge impl (basicFind st.mw.feats st.mw.ix id typed) (specAnswer st.mw.feats id typed))
+      else if world == "ow" then
+        if st.owPoisoned then (st, if impl == "skipped" then .ok else .diff "skipped")
+        else (st, judge impl (st.ow.find id typed) (specAnswer st.ow.merged id typed))
+      else (st, .bad)
+    | _, _ => (st, .bad)
+  | _ => (st, .bad)
+
+def family : Family := { σ := St, init := {}, step := step }
+
+end B6.Driver.C15
+
+def main : IO Unit := B6.Driver.run B6.Driver.C15.family
